@@ -192,22 +192,29 @@ def contents(layout: Layout, mode: str, assigned: dict[str, str] | None = None) 
     for p in layout:
         i = idx[p]
         lines = [f"T_{i}: int"]
+        own = set(candidates(p, True) + candidates(p, False))
+        if assigned and p in assigned:
+            own.add(assigned[p])
+        n = 0
         if mode == "assigned":
             for q in layout:
                 if q == p or not assigned or q not in assigned:
                     continue
                 m = assigned[q]
-                if valid_modname(m) and m != "__main__":
-                    lines.append(f"from {m} import T_{idx[q]}")
+                # a name the importing file itself answers to would be a self-import: says nothing about q
+                if valid_modname(m) and m != "__main__" and m not in own:
+                    n += 1
+                    lines.append(f"from {m} import T_{idx[q]} as A_{n}")
         elif mode == "candidates":
-            seen: set[str] = set()
+            seen: set[tuple[str, str]] = set()
             for q in layout:
                 if q == p:
                     continue
                 for c in candidates(q, True) + candidates(q, False):
-                    if (c, q) not in seen and valid_modname(c):
-                        seen.add((c, q))  # type: ignore[arg-type]
-                        lines.append(f"from {c} import T_{idx[q]}")
+                    if (c, q) not in seen and valid_modname(c) and c not in own:
+                        seen.add((c, q))
+                        n += 1
+                        lines.append(f"from {c} import T_{idx[q]} as A_{n}")
         lines.append(f"undefined_{i}")
         lines.append(f"V_{i}: int = ''")
         out[p] = "\n".join(lines) + "\n"
